@@ -79,6 +79,12 @@ constexpr std::array<SiteFn, sizeof...(I)> make_table(std::index_sequence<I...>)
 
 // four-argument sites are compiled in three separate translation units (first digit 0-2, 3-5, 6-8)
 constexpr int kSites4PerPart = 3 * 9 * 9 * 9;
-const SiteFn *sites4_part(int part);
+const SiteFn *sites4_part0();
+const SiteFn *sites4_part1();
+const SiteFn *sites4_part2();
+inline SiteFn site4(int i) {
+  const SiteFn *t = i < kSites4PerPart ? sites4_part0() : i < 2 * kSites4PerPart ? sites4_part1() : sites4_part2();
+  return t[i % kSites4PerPart];
+}
 
 }  // namespace c13
